@@ -30,6 +30,8 @@ from ``vgi_rpc/http/server/_app_stream.py`` / ``_app_unary.py`` / ``_resources.p
     (``resolve_external_location``), ``exchangeCoerce`` (``_coerce_input_batch``), ``exchangeRaise`` (``state.process``);
     an error path guarding none of these fails the extraction;
   * ``telemetryOnce``  ``_dispatch_telemetry`` emits in the ``finally`` of its only ``try`` and nowhere else;
+  * ``sidAtInit`` / ``sidOnHit`` / ``sidOnMiss``   ``_current_stream_id`` is published by ``/init`` before its telemetry shell and by
+    ``_unpack_and_recover_state`` on the cache-hit / cache-miss path of the call-state cache lookup;
 
 from ``vgi_rpc/logging_utils.py`` (``VgiAccessLogFormatter.format``)
   * ``sentinelBase`` / ``sentinelCond``   keys of the sentinel dict literal / keys stored afterwards;
@@ -589,6 +591,58 @@ def http_shapes() -> dict[str, object]:
     }
 
 
+def sid_shape() -> dict[str, bool]:
+    """Where the HTTP dispatch publishes ``_current_stream_id`` (what ``_emit_access_log`` reads for ``stream_id``).
+
+    ``_unpack_and_recover_state`` looks the call up in the call-state cache: ``if resolved is None:`` (miss: cold worker,
+    evicted or disabled cache — the call is resolved from the echoed call token) ``else:`` (hit).  A
+    ``_current_stream_id.set(...)`` after that statement runs on both paths, one inside an arm only on that path.
+    ``_run_stream_init_sync`` must publish the fresh id before it enters ``_dispatch_telemetry``."""
+    st = _parse("vgi_rpc/http/server/_app_stream.py")
+    f = _func(st, "_unpack_and_recover_state")
+
+    def is_set(n: ast.AST) -> bool:
+        return (isinstance(n, ast.Call) and isinstance(n.func, ast.Attribute) and n.func.attr == "set"
+                and isinstance(n.func.value, ast.Name) and n.func.value.id == "_current_stream_id")
+
+    def has_set(stmts: list[ast.stmt]) -> bool:
+        return any(is_set(c) for s_ in stmts for c in ast.walk(s_))
+
+    branch = None
+    for i, s_ in enumerate(f.body):
+        if isinstance(s_, ast.If):
+            t = s_.test
+            if (isinstance(t, ast.Compare) and isinstance(t.left, ast.Name) and t.left.id == "resolved" and len(t.ops) == 1
+                    and isinstance(t.ops[0], ast.Is) and isinstance(t.comparators[0], ast.Constant) and t.comparators[0].value is None):
+                branch = i
+                break
+    if branch is None:
+        raise Unsupported("_unpack_and_recover_state: `if resolved is None:` (cache miss / hit) not found at the top level")
+    node = f.body[branch]
+    assert isinstance(node, ast.If)
+    if has_set(f.body[:branch]):
+        raise Unsupported("_unpack_and_recover_state: stream id published before the call is resolved")
+    both = False
+    for s_ in f.body[branch + 1:]:
+        if has_set([s_]):
+            # allowed shapes: the bare call, or `if resolved.stream_id: <call>` (a stream's id is never empty)
+            ok = isinstance(s_, ast.Expr) or (isinstance(s_, ast.If) and not s_.orelse and isinstance(s_.test, ast.Attribute)
+                                               and s_.test.attr == "stream_id")
+            if not ok:
+                raise Unsupported("_unpack_and_recover_state: stream id published under an unrecognised condition")
+            both = True
+    on_miss = both or has_set(node.body)
+    on_hit = both or has_set(node.orelse)
+    fi = _func(st, "_run_stream_init_sync")
+    set_line = min((c.lineno for c in ast.walk(fi) if is_set(c)), default=None)
+    with_line = min((n.lineno for n in ast.walk(fi) if isinstance(n, ast.With) and any(
+        isinstance(it.context_expr, ast.Call) and isinstance(it.context_expr.func, ast.Name)
+        and it.context_expr.func.id == "_dispatch_telemetry" for it in n.items)), default=None)
+    if with_line is None:
+        raise Unsupported("_run_stream_init_sync: `with _dispatch_telemetry(...)` not found")
+    return {"miss": on_miss, "hit": on_hit, "init": set_line is not None and set_line < with_line}
+
+
 def formatter_shape() -> dict[str, object]:
     tree = _parse("vgi_rpc/logging_utils.py")
     cls = next((n for n in tree.body if isinstance(n, ast.ClassDef) and n.name == "VgiAccessLogFormatter"), None)
@@ -645,6 +699,7 @@ def emit() -> dict[str, str]:
     hs = http_shapes()
     fs = formatter_shape()
     eg = egress_shape()
+    sd = sid_shape()
     fb = es["fallback"]
     text = f"""import VgiVerif.Prelude.JsonSchema
 namespace VgiVerif.Gen.C34
@@ -688,6 +743,12 @@ def exchangeCoerce : Option Nat := {_opt_nat(hs["exchangeCoerce"])}
 def exchangeRaise : Option Nat := {_opt_nat(hs["exchangeRaise"])}
 def exchangeOvershoot : Option Nat := {_opt_nat(hs["exchangeOvershoot"])}
 def producerTurn : Option Nat := {_opt_nat(hs["producerTurn"])}
+
+/-- `_current_stream_id` is published: by `/init` before its telemetry shell; by `_unpack_and_recover_state` (every
+continuation, exchange turn and cancel) when the call-state cache hits / misses (cold worker, evicted or disabled cache) -/
+def sidAtInit : Bool := {"true" if sd["init"] else "false"}
+def sidOnHit : Bool := {"true" if sd["hit"] else "false"}
+def sidOnMiss : Bool := {"true" if sd["miss"] else "false"}
 
 /-! ## vgi_rpc/logging_utils.py — VgiAccessLogFormatter.format -/
 
